@@ -37,7 +37,7 @@ package certwatcher
 //@ func (*CertWatcher).handleEvent :: cw, event
 //@   props C14
 //@   requires cw != nil && cw.watcher != nil
-//@   assigns cw.currentCert, cwlog, lastLoadedPair, lastWatched
+//@   assigns cw.currentCert, cwlog, lastLoadedPair, lastWatched, watchedNames
 //@   ensures [C14:irrelevant-events-ignored] !relevantEvent(event.Op) ==> cwlog == old(cwlog) && cw.currentCert == old(cw.currentCert)
 //@   ensures [C14:remove-rewatches-then-reloads] relevantEvent(event.Op) && (event.Op / 4) % 2 == 1 ==> cwlog == old(cwlog) ++ seq[int]{1, 2} && lastWatched == event.Name
 //@   ensures [C14:write-create-reloads-once] relevantEvent(event.Op) && (event.Op / 4) % 2 == 0 ==> cwlog == old(cwlog) ++ seq[int]{2}
@@ -53,7 +53,21 @@ package certwatcher
 //@ func (*CertWatcher).Watch :: cw
 //@   props C14
 //@   requires cw != nil && cw.watcher != nil
-//@   assigns unrestricted, cwlog, lastLoadedPair, lastWatched
+//@   assigns unrestricted, cwlog, lastLoadedPair, lastWatched, watchedNames
 //@   ensures [C14:watch-loop-ends-only-when-the-watcher-is-closed] !ok#1 || !ok#2
 //@   ensures [C14:never-clears-current-pair] old(cw.currentCert) != nil ==> cw.currentCert != nil
 //@   loop 1 invariant cw != nil && cw.watcher != nil && (old(cw.currentCert) != nil ==> cw.currentCert != nil)
+
+//@ -- Start arms the watches under exactly the configured names (handleEvent re-arms by the event's name, which is
+//@ -- the name the watch was added under), starts the loop once, and returns after the context is done
+//@ func fsnotify.(*Watcher).Close :: w -> err
+//@   trusted
+//@   assigns nothing
+//@ func (*CertWatcher).Start :: cw, ctx -> err
+//@   props C14
+//@   requires cw != nil && cw.watcher != nil && ctx != nil
+//@   assigns unrestricted, cwlog, lastWatched, watchedNames
+//@   ensures [C14:watches-the-configured-certificate-and-key-paths] watchedNames == old(watchedNames) ++ seq[string]{cw.certPath, cw.keyPath} || (err != nil && (watchedNames == old(watchedNames) ++ seq[string]{cw.certPath} || watchedNames == old(watchedNames)))
+//@   ensures [C14:watch-loop-started-at-most-once-and-only-with-both-watches-armed] 0 <= spawned(Watch) - old(spawned(Watch)) && spawned(Watch) - old(spawned(Watch)) <= 1 && (spawned(Watch) - old(spawned(Watch)) == 1 ==> watchedNames == old(watchedNames) ++ seq[string]{cw.certPath, cw.keyPath})
+//@   ensures [C14:successful-start-ran-the-watch-loop] err == nil ==> spawned(Watch) - old(spawned(Watch)) == 1
+//@   loop 1 invariant cw != nil && cw.watcher != nil && -1 <= rangeindex && rangeindex < 2 && spawned(Watch) == old(spawned(Watch)) && watchedNames == old(watchedNames) ++ ite(rangeindex >= 0, seq[string]{cw.certPath}, seq[string]{}) ++ ite(rangeindex >= 1, seq[string]{cw.keyPath}, seq[string]{}) && len(files) == 2 && files[0] == cw.certPath && files[1] == cw.keyPath
